@@ -274,6 +274,9 @@ func c16History(k *fw.K, B, D, O int) {
 	}
 	viaInput := k.Rng.Intn(3) == 0
 	input := layers.NewInput()
+	if k.Rng.Intn(2) == 0 {
+		input = new(layers.Input) // the zero value of the exported type, as fresh as a constructed one
+	}
 	forward := func(tag string, track bool) (x *ref.T, rx, ry tensor.Tensor, ok bool) {
 		if B <= 6 && k.Rng.Intn(3) == 0 && tag != "Forward before back-propagation" {
 			B = 1 + k.Rng.Intn(6) // the same layer sees batches of different sizes
@@ -310,11 +313,16 @@ func c16History(k *fw.K, B, D, O int) {
 		guard := argGuard(rx)
 		ins := []tensor.Tensor{rx} // the call spreads a slice the caller keeps
 		if viaInput {              // the batch reaches the layer through an Input layer that hands the same tensor out twice (two heads)
-			input.SeedFunc = func() tensor.Tensor { return rx }
+			seedCalls := 0 // the seed function is a stateful source (a batch iterator): one call per Forward, no more
+			input.SeedFunc = func() tensor.Tensor { seedCalls++; return rx }
 			for hand := 0; hand < 2; hand++ {
 				var h tensor.Tensor
 				if p := call(func() { h, err = input.Forward() }); p != nil || err != nil || h == nil {
 					k.Failf("%s: Input.Forward failed: panic=%v err=%v", tag, p, err)
+					return nil, nil, nil, false
+				}
+				if seedCalls != hand+1 {
+					k.Failf("%s: after %d Input.Forward calls the seed function (a stateful batch source) was called %d times: a batch was drawn and dropped", tag, hand+1, seedCalls)
 					return nil, nil, nil, false
 				}
 				if hand == 0 {
